@@ -355,8 +355,7 @@ func (vm *Type) Run(retResult bool) (value.Type, error) {
 
 		case bytecode.FUNC:
 			val := vm.fetch(instr.Src0(), instr.Src0Addr(), m, ds)
-			frame := m.Top()
-			val.SetFrame(&frame)
+			val.SetFrame(m.TopRef())
 			m.Push(val)
 
 		case bytecode.CALL:
@@ -374,7 +373,7 @@ func (vm *Type) Run(retResult bool) (value.Type, error) {
 			}
 
 			m.PushFrame(args, fVal.LocalCnt)
-			m.PushClosure(*fVal.Frame)
+			m.PushClosure(fVal.Frame)
 			m.Push(value.NewInt(ip))
 
 			ip = fVal.Node - 1
